@@ -106,7 +106,7 @@ func conc(c *Ctx) {
 	var casBlobs []*world.Blob
 	sizes := []int64{3000, 100, 4096, 5000, 9000, 1}
 	for i := 0; i < nCas; i++ {
-		casBlobs = append(casBlobs, world.Make(world.BlobID{Kind: r.Intn(3), Seed: 100 + i, Size: sizes[r.Intn(len(sizes))]}))
+		casBlobs = append(casBlobs, world.Make(world.BlobID{Kind: r.Intn(4), Seed: 100 + i, Size: sizes[r.Intn(len(sizes))]}))
 	}
 	// Optionally the directory already holds corrupt cas.v2 files for some of
 	// the keys (what a crash or a bad disk leaves): the loader indexes them by
@@ -206,6 +206,16 @@ func conc(c *Ctx) {
 	nClients := 2 + r.Intn(4)
 	var hist []histOp
 	valContent := map[string][]byte{} // value id -> content (AC values)
+	intactStarted := map[string]bool{} // CAS keys of which an intact copy was stored or offered (by anyone, possibly still in flight)
+	for k := range preStored {
+		intactStarted[k] = true
+	}
+	for k := range seeded {
+		intactStarted[k] = true
+	}
+	for k := range corruptKey {
+		intactStarted[k] = true // indexed at start-up: the exists-check answers (recorded finding for C07)
+	}
 	for k, v := range preStored {
 		if _, dup := seeded[k]; !dup {
 			hist = append(hist, histOp{client: 98, key: k, write: true, val: world.HashOf(v), size: int64(len(v)), ok: true, call: 0, ret: 0, via: 0})
@@ -255,6 +265,8 @@ func conc(c *Ctx) {
 				plans[ci] = append(plans[ci], planned{descr: fmt.Sprintf("put cas %s via=%d fault=%d cuts=%v", b.ID, via, fault, cuts), run: func(cl *world.Client, ci int) {
 					if fault != 0 {
 						s.Fault(fmt.Sprintf("upload.corrupt%d", fault))
+					} else {
+						intactStarted["cas/"+b.Hash] = true
 					}
 					var res world.Res
 					switch via {
@@ -273,7 +285,12 @@ func conc(c *Ctx) {
 					}
 					s.Note("c%d put cas %s via %d -> %s", ci, b.ID, via, res.Code)
 					if fault != 0 && res.OK {
-						s.Violate("C01.reject", "disk.Put", "corrupted upload (fault %d) of %s acknowledged", fault, b.ID)
+						// an early OK is legitimate when the digest may already be present
+						if intactStarted["cas/"+b.Hash] {
+							s.Probe("damaged_upload_to_possibly_present_digest_acked")
+						} else {
+							s.Violate("C01.reject", "disk.Put", "corrupted upload (fault %d) of %s acknowledged although no intact copy was ever offered", fault, b.ID)
+						}
 					}
 					if fault == 0 && !res.OK {
 						if tight {
